@@ -21,7 +21,7 @@
 // parked), subscriptions created by the step must have started their ticker
 // and, if they were created with a 1 ms interval and zero lifetime, must have
 // expired; (3) a canary client on its own connection must get a Read
-// answered within the 20 s watchdog.
+// answered within the watchdog (60 s in this check).
 //
 // Violations: the worker process dies (signature: step's service and variant,
 // token mode, top in-repo function of the panic); the canary is not answered
@@ -72,6 +72,11 @@ type c29Variant struct {
 func (v c29Variant) String() string { return v.Svc + ":" + v.Name }
 
 const c29Big = 10000
+
+// c29Watch bounds every wait of this check. Under heavy machine load a single
+// 10^4-element request can take tens of seconds, so it is three times the
+// usual watchdog (normal step latency is about a millisecond).
+const c29Watch = 3 * watchdog
 
 func c29RVID(n *ua.NodeID, a ua.AttributeID) *ua.ReadValueID {
 	return &ua.ReadValueID{NodeID: n, AttributeID: a, DataEncoding: &ua.QualifiedName{}}
@@ -403,7 +408,7 @@ func newC29World() (*c29World, error) {
 	w.folder = ua.NewStringNodeID(w.ns.ID(), "folder")
 	w.freshNodes()
 	w.variants = c29Variants(s.VerifHandlerIDs())
-	if w.canary, err = connectClient(url); err != nil {
+	if w.canary, err = connectClientT(url, c29Watch); err != nil {
 		return nil, fmt.Errorf("canary: %v", err)
 	}
 	return w, nil
@@ -530,7 +535,7 @@ func (w *c29World) cleanup(conns []*c29Conn) error {
 }
 
 func (w *c29World) canaryRead() error {
-	ctx, cancel := context.WithTimeout(context.Background(), watchdog)
+	ctx, cancel := context.WithTimeout(context.Background(), c29Watch)
 	defer cancel()
 	resp, err := w.canary.Read(ctx, &ua.ReadRequest{NodesToRead: []*ua.ReadValueID{{NodeID: ua.NewNumericNodeID(0, id.Server_ServerStatus_State), AttributeID: ua.AttributeIDValue}}, TimestampsToReturn: ua.TimestampsToReturnBoth})
 	if err != nil {
@@ -689,7 +694,7 @@ func (w *c29World) run(j c29Job) (rep c29Reply) {
 				rep.Busy = "cleanup: " + err.Error()
 				rep.Exit = true
 			}
-		case <-time.After(2 * watchdog):
+		case <-time.After(c29Watch):
 			rep.Busy = "cleanup did not finish"
 			rep.Exit = true
 		}
@@ -722,9 +727,9 @@ func (w *c29World) run(j c29Job) (rep c29Reply) {
 					err = fmt.Errorf("client-side encoder panic in %s", panicSite())
 				}
 			}()
-			sctx, cancel := context.WithTimeout(context.Background(), watchdog)
+			sctx, cancel := context.WithTimeout(context.Background(), c29Watch)
 			defer cancel()
-			return c.sc.SendRequestWithTimeout(sctx, req, tok, watchdog, nil) // do not wait for the answer: the sentinel is the barrier
+			return c.sc.SendRequestWithTimeout(sctx, req, tok, c29Watch, nil) // do not wait for the answer: the sentinel is the barrier
 		}()
 		if err != nil {
 			rep.Steps = append(rep.Steps, "not-sent:"+c30Norm(err.Error()))
@@ -734,12 +739,12 @@ func (w *c29World) run(j c29Job) (rep c29Reply) {
 		// sentinel on the same connection
 		done := make(chan error, 1)
 		go func() {
-			sctx, cancel := context.WithTimeout(context.Background(), watchdog+5*time.Second)
+			sctx, cancel := context.WithTimeout(context.Background(), c29Watch+5*time.Second)
 			defer cancel()
-			done <- c.sc.SendRequestWithTimeout(sctx, &ua.ReadRequest{TimestampsToReturn: ua.TimestampsToReturnBoth, NodesToRead: []*ua.ReadValueID{c29RVID(ua.NewNumericNodeID(0, id.Server_ServerStatus_State), ua.AttributeIDValue)}}, c.tok, watchdog, func(ua.Response) error { return nil })
+			done <- c.sc.SendRequestWithTimeout(sctx, &ua.ReadRequest{TimestampsToReturn: ua.TimestampsToReturnBoth, NodesToRead: []*ua.ReadValueID{c29RVID(ua.NewNumericNodeID(0, id.Server_ServerStatus_State), ua.AttributeIDValue)}}, c.tok, c29Watch, func(ua.Response) error { return nil })
 		}()
 		outcome := ""
-		deadline := time.Now().Add(watchdog + 10*time.Second)
+		deadline := time.Now().Add(c29Watch + 10*time.Second)
 		for outcome == "" {
 			select {
 			case err := <-done:
@@ -769,15 +774,19 @@ func (w *c29World) run(j c29Job) (rep c29Reply) {
 		}
 		rep.Steps = append(rep.Steps, outcome)
 		// settle: background goroutines of the step, tickers of new subscriptions
-		dl := time.Now().Add(watchdog)
+		dl := time.Now().Add(c29Watch)
 		for !w.subsSettled() && time.Now().Before(dl) {
 			time.Sleep(200 * time.Microsecond)
 		}
-		if ok, why := waitQuiescent(); !ok || !w.subsSettled() {
+		ok, why := waitQuiescent()
+		for tries := 0; !ok && tries < 2; tries++ { // waitQuiescent waits one watchdog; allow c29Watch in total
+			ok, why = waitQuiescent()
+		}
+		if !ok || !w.subsSettled() || outcome == "stalled" {
 			// still working on the step after the watchdog: not a verdict (the canary decides about hangs), but
 			// this server cannot be reused deterministically
 			rep.Steps[len(rep.Steps)-1] += "+not-quiescent"
-			rep.Busy = "server still busy " + watchdog.String() + " after the step: " + why
+			rep.Busy = "server still busy " + c29Watch.String() + " after the step (sentinel " + outcome + "): " + why
 			// The canary's verdict would now depend on how fast the backlog drains (machine load), so it
 			// is not taken: a hang is only called when the server is quiescent and still does not answer.
 			return
@@ -890,6 +899,12 @@ func c29() {
 	})
 	p := newPool("c29", evid.Workers(), nil)
 	defer p.close()
+	// a worker whose server is hung, stalled or could not be cleaned up must not run further histories:
+	// whatever that server does later would be blamed on them
+	p.retire = func(out []byte) bool {
+		var rep c29Reply
+		return json.Unmarshal(out, &rep) == nil && rep.Exit
+	}
 
 	busy := map[string]string{}
 	bad := map[c29Op]bool{} // operations that kill or hang the server on their own
@@ -1005,8 +1020,15 @@ func c29() {
 	levelOne = false
 	var good []c29Op
 	for _, o := range ops {
-		if !bad[o] {
+		// The unknown-token mode is only run as single-step histories: for every handler it is the same
+		// situation as the null token (the session lookup returns nil), which is extended.
+		if !bad[o] && o.Tok != "unknown" {
 			good = append(good, o)
+		}
+	}
+	for i, h := range l1 {
+		if h[0].Tok == "unknown" {
+			extendable[i] = false
 		}
 	}
 	r.Set("operations", len(ops))
